@@ -15,23 +15,41 @@ theorem translator_complete : Gen.missing = [] := by decide
 
 theorem skeleton_unchanged :
     (Gen.Skel.conds_muxOptions_readAll,
+     Gen.Skel.stmts_muxOptions_readAll,
      Gen.Skel.conds_muxOptions_writeAll,
+     Gen.Skel.stmts_muxOptions_writeAll,
      Gen.Skel.conds_streamGRPC_RecvMsg,
+     Gen.Skel.stmts_streamGRPC_RecvMsg,
      Gen.Skel.conds_streamGRPC_SendMsg,
+     Gen.Skel.stmts_streamGRPC_SendMsg,
      Gen.Skel.conds_streamWS_RecvMsg,
+     Gen.Skel.stmts_streamWS_RecvMsg,
      Gen.Skel.conds_streamHTTP_readMsg,
+     Gen.Skel.stmts_streamHTTP_readMsg,
      Gen.Skel.conds_CodecProto_ReadNext,
+     Gen.Skel.stmts_CodecProto_ReadNext,
      Gen.Skel.conds_CodecJSON_ReadNext,
-     Gen.Skel.conds_codecHTTPBody_ReadNext)
+     Gen.Skel.stmts_CodecJSON_ReadNext,
+     Gen.Skel.conds_codecHTTPBody_ReadNext,
+     Gen.Skel.stmts_codecHTTPBody_ReadNext)
   = (Expected.C08.conds_muxOptions_readAll,
+     Expected.C08.stmts_muxOptions_readAll,
      Expected.C08.conds_muxOptions_writeAll,
+     Expected.C08.stmts_muxOptions_writeAll,
      Expected.C08.conds_streamGRPC_RecvMsg,
+     Expected.C08.stmts_streamGRPC_RecvMsg,
      Expected.C08.conds_streamGRPC_SendMsg,
+     Expected.C08.stmts_streamGRPC_SendMsg,
      Expected.C08.conds_streamWS_RecvMsg,
+     Expected.C08.stmts_streamWS_RecvMsg,
      Expected.C08.conds_streamHTTP_readMsg,
+     Expected.C08.stmts_streamHTTP_readMsg,
      Expected.C08.conds_CodecProto_ReadNext,
+     Expected.C08.stmts_CodecProto_ReadNext,
      Expected.C08.conds_CodecJSON_ReadNext,
-     Expected.C08.conds_codecHTTPBody_ReadNext) := rfl
+     Expected.C08.stmts_CodecJSON_ReadNext,
+     Expected.C08.conds_codecHTTPBody_ReadNext,
+     Expected.C08.stmts_codecHTTPBody_ReadNext) := rfl
 
 /-- HTTP unary (`readAll`): a body of at most `limit` bytes is returned whole … -/
 theorem readAll_within_limit (e : Env) (limit spare : Nat) (h : e.data.length ≤ limit) :
